@@ -111,7 +111,7 @@ Proof. apply obind_QR; [now rewrite addto_t, geti_t | intros l; now rewrite addt
 Lemma apply_padding1_t m d (lhs : list Q) n_rhs off :
   omap (apply_padding1 m d lhs n_rhs off) = apply_padding1 m d (QR lhs) n_rhs off.
 Proof.
-  unfold apply_padding1. rewrite zlen_t, map_length.
+  unfold apply_padding1. change size_guard_before_skip with false; cbn [andb]. rewrite zlen_t, map_length.
   destruct (padding_skipped (zlen lhs) (Z.of_nat n_rhs)); [reflexivity|].
   cbv zeta. destruct (_ || _ || _); [reflexivity|].
   destruct (padding_slices_outer off (zlen lhs) (Z.of_nat n_rhs)) as [so_l so_r].
